@@ -124,6 +124,7 @@ def run_scheduler(w, pool_name='standard', pick=None, only_inst=None, during=Non
             await dj.mark_job_started(w.app, body['batch_id'], j, att, inst, 10, [])
         elif during == 'complete':
             await dj.mark_job_complete(w.app, body['batch_id'], j, att, _group(w, j), inst.name, 'Success', None, 10, 20, 'completed', [])
+            _reported(w, j, att)
         return None
 
     async def body():
@@ -154,15 +155,43 @@ def run_scheduler(w, pool_name='standard', pick=None, only_inst=None, during=Non
     return {'asked': sp.calls}
 
 
-def run_canceller(w, which):
+def run_canceller(w, which, during=None):
+    """One real Canceller sweep.  `during='complete'`: between the sweep's SELECT and its first CALL unschedule_job the
+    worker's completion report for that very attempt is handled by the driver (the job finished while the canceller was
+    on its way), so the unschedule arrives for an attempt that has already completed the job."""
     from batch.driver.canceller import Canceller
 
     async def body():
         c = Canceller(w.app)
         return await getattr(c, which)()
 
-    w.run(_with_driver_ctx(w, body))
-    return {}
+    fired = []
+
+    async def abefore(sql, args):
+        if fired or during is None or not sql.lstrip().upper().startswith('CALL UNSCHEDULE_JOB'):
+            return
+        fired.append(tuple(args[:4]))
+        from batch.driver import job as dj
+
+        bid, j, att, inst = args[:4]
+        w.backend.abefore = None
+        try:
+            await dj.mark_job_complete(w.app, bid, j, att, _group(w, j), inst, 'Success', None, 10, 20, 'completed', [])
+            _reported(w, j, att)
+        finally:
+            w.backend.abefore = abefore
+
+    w.backend.abefore = abefore if during else None
+    try:
+        w.run(_with_driver_ctx(w, body))
+    finally:
+        w.backend.abefore = None
+    return {'during_fired': len(fired)}
+
+
+def _reported(w, j, att):
+    """the worker's completion report for (job, attempt) has been delivered and acknowledged: it will not send it again"""
+    w.reported = frozenset(getattr(w, 'reported', frozenset()) | {(j, att)})
 
 
 class BatchWorld(dbworld.World):
@@ -305,6 +334,7 @@ def apply(w: BatchWorld, label) -> Dict[str, Any]:
             n0 = len(w.client_session.calls)
             w.run(dj.mark_job_complete(w.app, BID, j, att, g, inst, state, None, t0, t1, 'completed',
                                        [{'name': n, 'quantity': q} for n, q in rs]))
+            _reported(w, j, att)
             return {'rc': 0}
         if kind == 'unschedule':
             _, j, att, inst = label
@@ -357,7 +387,7 @@ def apply(w: BatchWorld, label) -> Dict[str, Any]:
             return run_canceller(w, {'ready': 'cancel_cancelled_ready_jobs_loop_body',
                                      'creating': 'cancel_cancelled_creating_jobs_loop_body',
                                      'running': 'cancel_cancelled_running_jobs_loop_body',
-                                     'orphans': 'cancel_orphaned_attempts_loop_body'}[label[1]])
+                                     'orphans': 'cancel_orphaned_attempts_loop_body'}[label[1]], label[2] if len(label) > 2 else None)
         if kind == 'token':
             w.token = label[1]
             return {}
